@@ -335,7 +335,10 @@ impl CommonArgs {
 
         // The pool might be already initialized, suppress the error intentionally.
         if self.available_threads.get() <= 1 {
-            let _ = ThreadPoolBuilder::new().use_current_thread().build_global();
+            let _ = ThreadPoolBuilder::new()
+                .num_threads(1)
+                .use_current_thread()
+                .build_global();
         } else {
             let _ = ThreadPoolBuilder::new()
                 .num_threads(self.available_threads.get())
